@@ -165,7 +165,7 @@ Lemma sinv_frame s s' :
   elected s' = elected s -> votes s' = votes s -> started s' = started s ->
   (forall a, In a (acks s') -> In a (acks s)) ->
   (forall m, In m (appends s') -> In m (appends s) \/ msgc_ok s m) ->
-  (forall n, log (st s' n) = log (st s n) /\ flushed (st s' n) = flushed (st s n) /\
+  (forall n, log (st s' n) = log (st s n) /\ (flushed (st s n) <= flushed (st s' n))%nat /\
              commit (st s' n) = commit (st s n) /\ cur (st s n) <= cur (st s' n) /\
              (role (st s' n) = Leader ->
                 role (st s n) = Leader /\ cur (st s' n) = cur (st s n) /\
@@ -184,7 +184,8 @@ Proof.
   assert (Hlp : forall t X, lpre s t X -> lpre s' t X).
   { intros t X. apply lpre_mono; [rewrite Eel | rewrite Ecr]; apply incl_refl. }
   assert (Hholds : forall v K, holds s v K -> holds s' v K).
-  { intros v K. unfold holds. destruct (Hn v) as (E1 & E2 & _). rewrite E1, E2. auto. }
+  { intros v K. unfold holds. destruct (Hn v) as (E1 & E2 & _). rewrite E1. intros HK.
+    exact (prefix_trans _ _ _ HK (prefix_firstn_le _ _ _ E2)). }
   constructor; rewrite ?Eack, ?Ecr, ?Eco, ?Eel, ?Evo, ?Esta.
   - intros tc v i Hin. destruct (Hn v) as (_ & _ & _ & H & _). pose proof (Hat _ _ _ Hin). lia.
   - intros tc v i Hin. destruct (Hal _ _ _ Hin) as [X [H1 H2]]. exists X. split; [apply Hlp; exact H1 | exact H2].
@@ -206,7 +207,7 @@ Proof.
     exists K. repeat split; auto.
   - intros n i e. destruct (Hn n) as (E1 & _ & E3 & E4 & _). rewrite E1, E3. intros H1 H2.
     destruct (Hnc _ _ _ H1 H2) as [tc [H3 H4]]. exists tc. split; [lia | exact H4].
-  - intros n. destruct (Hn n) as (_ & E2 & E3 & _). rewrite E2, E3. apply Hcf.
+  - intros n. destruct (Hn n) as (_ & E2 & E3 & _). rewrite E3. pose proof (Hcf n). lia.
 Qed.
 
 Lemma holds_prefix s v K : holds s v K -> prefix K (log (st s v)).
@@ -808,16 +809,16 @@ Qed.
 
 (* ---- all steps ---- *)
 
-Lemma send_msgc_ok s l pi k :
-  sinv s -> linv s -> role (st s l) = Leader ->
+Lemma send_msgc_ok s l pi k c :
+  sinv s -> linv s -> role (st s l) = Leader -> (c <= commit (st s l))%nat ->
   msgc_ok s (mkReq (cur (st s l)) l pi (term_at (log (st s l)) pi)
-                   (firstn k (skipn pi (log (st s l)))) (commit (st s l))).
+                   (firstn k (skipn pi (log (st s l)))) c).
 Proof.
-  intros Hs Hl Hrole. split; simpl.
-  - exists (firstn (commit (st s l)) (log (st s l))). split.
+  intros Hs Hl Hrole Hc. split; simpl.
+  - exists (firstn c (log (st s l))). split.
     + apply (lpre_prefix _ _ _ (log (st s l))); [exact (l_ldl _ Hl _ Hrole) | apply firstn_prefix].
     + apply firstn_length_le. pose proof (s_cf _ Hs l). pose proof (l_fl _ Hl l). lia.
-  - intros K HK HT Hlen. exact (s_ldc _ Hs _ _ Hrole HK HT Hlen).
+  - intros K HK HT Hlen. apply (s_ldc _ Hs _ _ Hrole HK HT). lia.
 Qed.
 
 Ltac snode_obl :=
@@ -864,6 +865,9 @@ Proof.
     apply (sinv_frame s); try exact Hs; unfold do_drop_ack; simpl; try reflexivity; auto.
     + intros a0 Hin. exact (remove1_incl _ _ _ _ Hin).
     + intros n0. snode_obl.
+  - (* flush *)
+    apply (sinv_frame s); try exact Hs; unfold do_flush; simpl; try reflexivity; auto.
+    intros n0. upd_case n0 n; simpl; snode_obl.
 Qed.
 
 Lemma reachable_all s : Reachable V s -> vinv V s /\ linv s /\ sinv s.
